@@ -33,6 +33,8 @@ def main() -> int:
         for i, h in enumerate(hists):
             cases.append({"target": "jsonschema" if i % 2 == 0 else all_targets[(i // 2) % len(all_targets)], "steps": h})
         cases = cases[:6000]
+    if ck.replay_case is not None:
+        cases = [ck.replay_case["history"]]
     ip = ck.work / "histories.json"
     core.write_json(ip, {"texts": {"t1": T1, "t2": T2}, "targets": all_targets, "histories": cases})
     tp = ck.work / "traces_out.json"
@@ -58,6 +60,6 @@ def main() -> int:
     ck.cov["samples"] = [cases[0], cases[len(cases) // 2]]
     ck.cov["exhaustive"] = ck.quick
     ck.assumptions += ["cache directory = <tempfile.gettempdir()>/aas-core-codegen-<version> (the documented location)", "in-process invocation of main.main with patched sys.argv stands for the CLI process"]
-    if nontriv == 0:
+    if nontriv == 0 and ck.replay_case is None:
         raise core.MachineryFailure("vacuous")
     return ck.finish()
